@@ -830,6 +830,13 @@ def _identical(a, b):
             return SBool(simp(r.id == 0))
         if isinstance(a, S.SRef) and isinstance(b, S.SRef):
             return SBool(simp(a.id == b.id))
+        r, o = (a, b) if isinstance(a, S.SRef) else (b, a)
+        if isinstance(o, (int, SInt)) and not isinstance(o, bool):
+            # an integer standing for an object (element / key abstraction: the identity of a heap object is its
+            # integer): the same object iff the integer is its identity.  Never a silent False.
+            return SBool(simp(r.id == to_z3(o)))
+        if isinstance(o, Sym):
+            raise Unsupported(f"comparison of a heap reference with {type(o).__name__}")
         return False
     if isinstance(a, Sym) or isinstance(b, Sym):
         if isinstance(a, SObj) and isinstance(b, SObj):
